@@ -280,6 +280,92 @@ def run_mode_case(p):
     return None
 
 
+def run_the_nested_case(p):
+    """C06 / C15: `the` used inside another query.  (a) correlated: the(entity(o, o.name == x.name)) over owners with
+    distinct names has exactly one solution per x; its attribute is an operand of the enclosing description, so the
+    enclosing the / an behaves like the plain Python filter.  (b) a `the` term as the selected term of an enclosing
+    description with a further condition keeps its own outcome: NoSolutionFound / MultipleSolutionFound for 0 / >= 2
+    solutions, and for one solution u the enclosing the returns u or raises NoSolutionFound (an: [u] or []) by the further
+    condition.  Everything twice."""
+    from entity_query_language import symbolic_mode, let, an, the, entity, set_of
+    from entity_query_language import MultipleSolutionFound, NoSolutionFound
+    O.reset_registry()
+    rng = random.Random(p['seed'])
+    n = p.get('n', 4)
+    d0 = O.make_domain(rng, n)
+    sizes = list(range(n))
+    rng.shuffle(sizes)
+    for o, z in zip(d0, sizes):
+        o.size = z
+    owners = [O.Item(name=nm, size=rng.choice([1, 2, 3])) for nm in 'abc']
+    form = rng.choice(p.get('forms', ['corr_the', 'corr_an', 'the_the', 'the_entity_the', 'an_entity_the', 'the_setof_the']))
+    lo = rng.choice([n - 2, n - 2, n - 1, n - 3])
+    c0 = ('cmp', 'gt', ('attr', 0, 'size'), ('lit', lo))
+    c1 = O.gen_cond(rng, 1, 1, vocab=('cmp', 'name'), neg=False)
+    lim = rng.choice([1, 2, 3])
+    op = rng.choice(['ge', 'lt', 'eq'])
+
+    def outcome(f, key):
+        try:
+            return ('value', key(f()))
+        except MultipleSolutionFound:
+            return ('multiple',)
+        except NoSolutionFound:
+            return ('none',)
+    try:
+        with symbolic_mode():
+            x = let(type_=O.Item, domain=d0)
+            o = let(type_=O.Item, domain=owners)
+            if form.startswith('corr'):
+                owner_of_x = the(entity(o, o.name == x.name))
+                conds = [O.build(c0, [x]), O.build(('cmp', op, ('attr', 0, 'size'), ('lit', lim)), [owner_of_x])]
+                q = (the if form == 'corr_the' else an)(entity(x, *conds))
+            else:
+                inner = the(entity(x, O.build(c0, [x])))
+                if form == 'the_the':
+                    q = the(inner, O.build(c1, [x]))
+                elif form == 'the_entity_the':
+                    q = the(entity(inner, O.build(c1, [x])))
+                elif form == 'an_entity_the':
+                    q = an(entity(inner, O.build(c1, [x])))
+                else:
+                    q = the(set_of([inner, o], o.name == x.name, O.build(c1, [x])))
+        by_name = {w.name: w for w in owners}
+        if form.startswith('corr'):
+            sat = [a for a in d0 if O.holds(c0, {0: a}) and O.OPS[op](by_name[a.name].size, lim)]
+            if form == 'corr_the':
+                want = ('value', id(sat[0])) if len(sat) == 1 else (('none',) if not sat else ('multiple',))
+                got = [outcome(q.evaluate, id) for _ in range(2)]
+            else:
+                want = ('value', sorted(id(a) for a in sat))
+                got = [outcome(lambda: list(q.evaluate()), lambda r: sorted(id(a) for a in r)) for _ in range(2)]
+        else:
+            inner_sat = [a for a in d0 if O.holds(c0, {0: a})]
+            if len(inner_sat) != 1:
+                want = ('none',) if not inner_sat else ('multiple',)
+            else:
+                u = inner_sat[0]
+                ok = O.holds(c1, {0: u})
+                if form == 'an_entity_the':
+                    want = ('value', [id(u)] if ok else [])
+                elif form == 'the_setof_the':
+                    want = ('value', (id(u), id(by_name[u.name]))) if ok else ('none',)
+                else:
+                    want = ('value', id(u)) if ok else ('none',)
+            if form == 'an_entity_the':
+                got = [outcome(lambda: list(q.evaluate()), lambda r: [id(a) for a in r]) for _ in range(2)]
+            elif form == 'the_setof_the':
+                got = [outcome(q.evaluate, lambda r: (id(r[x]), id(r[o]))) for _ in range(2)]
+            else:
+                got = [outcome(q.evaluate, id) for _ in range(2)]
+    except Exception as e:  # noqa
+        return {'form': form, 'exception': repr(e), 'trace': traceback.format_exc(limit=4), 'signature_kind': form + ':exception'}
+    if got != [want, want]:
+        return {'form': form, 'inner': repr(c0), 'further': repr(c1), 'owner_test': (op, lim), 'domain': repr(d0),
+                'owners': repr(owners), 'got': repr(got), 'want': repr([want, want]), 'signature_kind': form}
+    return None
+
+
 def run_subquery_case(p):
     """C15: an(entity(v, c)) used as a condition / operand means c inlined"""
     from entity_query_language import symbolic_mode, let, an, entity, set_of, and_, or_
@@ -290,6 +376,41 @@ def run_subquery_case(p):
     c0 = O.gen_cond(rng, 1, 1, vocab=('cmp', 'name'), neg=False)
     c1 = ('cmp', rng.choice(['eq', 'lt', 'ge']), ('attr', 0, 'size'), ('attr', 1, 'size'))
     conn = rng.choice(['and', 'or']) if p.get('connectives', True) else 'and'
+    if p.get('shared'):
+        # ONE sub-query object used as a condition in several places of the enclosing condition (branches of a
+        # disjunction, conjuncts; the library refuses a negation over a quantifier): it means its conditions inlined at each of them
+        ca, cb, cc = (O.gen_cond(rng, 1, 1, vocab=('cmp', 'name'), neg=False) for _ in range(3))
+        shape = rng.choice(['or3', 'or3', 'or_and', 'and_or', 'two_vars'])
+        try:
+            with symbolic_mode():
+                x = let(type_=O.Item, domain=d0)
+                y = let(type_=O.Item, domain=d1)
+                sub = an(entity(x, O.build(c0, [x])))
+                A, B, Cc = O.build(ca, [x]), O.build(cb, [x]), O.build(cc, [x])
+                if shape == 'or3':
+                    cond, ref = or_(and_(sub, A), and_(sub, B), Cc), lambda a, b: (O.holds(c0, {0: a}) and O.holds(ca, {0: a})) or (O.holds(c0, {0: a}) and O.holds(cb, {0: a})) or O.holds(cc, {0: a})
+                elif shape == 'or_and':
+                    cond, ref = or_(and_(A, sub), and_(B, sub), Cc), lambda a, b: (O.holds(c0, {0: a}) and (O.holds(ca, {0: a}) or O.holds(cb, {0: a}))) or O.holds(cc, {0: a})
+                elif shape == 'and_or':
+                    cond, ref = and_(or_(sub, A), or_(sub, B)), lambda a, b: O.holds(c0, {0: a}) or (O.holds(ca, {0: a}) and O.holds(cb, {0: a}))
+                else:
+                    J = O.build(c1, [x, y])
+                    cond, ref = or_(and_(sub, J), and_(sub, A), Cc), lambda a, b: (O.holds(c0, {0: a}) and (O.holds(c1, {0: a, 1: b}) or O.holds(ca, {0: a}))) or O.holds(cc, {0: a})
+                q = an(set_of([x, y], cond)) if shape == 'two_vars' else an(entity(x, cond))
+            outs = []
+            for _ in range(2):
+                if shape == 'two_vars':
+                    outs.append(sorted((id(r[x]), id(r[y])) for r in q.evaluate()))
+                else:
+                    outs.append(sorted(id(r) for r in q.evaluate()))
+            want = sorted((id(a), id(b)) for a in d0 for b in d1 if ref(a, b)) if shape == 'two_vars' else \
+                sorted(id(a) for a in d0 if ref(a, None))
+        except Exception as e:  # noqa
+            return {'shape': shape, 'exception': repr(e), 'trace': traceback.format_exc(limit=4), 'signature_kind': 'shared:' + shape + ':exception'}
+        if [sorted(set(o_)) for o_ in outs] != [sorted(set(want))] * 2:
+            return {'shape': shape, 'sub': repr(c0), 'a': repr(ca), 'b': repr(cb), 'c': repr(cc), 'got_rows': [len(o_) for o_ in outs],
+                    'want_rows': len(want), 'signature_kind': 'shared:' + shape}
+        return None
     try:
         with symbolic_mode():
             x = let(type_=O.Item, domain=d0)
@@ -628,6 +749,8 @@ def _run_case(p):
         return run_select_case(p)
     if p.get('kind') == 'flatten':
         return run_flatten_case(p)
+    if p.get('kind') == 'the_nested':
+        return run_the_nested_case(p)
     if p.get('kind') == 'the':
         return run_the_case(p)
     if p.get('kind') == 'modes':
